@@ -272,7 +272,7 @@ Qed.
 Lemma insert_by_nu {A} (f : A -> bool) lt x l : f x = true -> forallb f l = true -> forallb f (insert_by lt x l) = true.
 Proof.
   intros Hx. induction l as [|y l IH]; simpl; [rewrite Hx; reflexivity|].
-  rewrite andb_true_iff. intros [a b]. destruct (lt x y); simpl; [rewrite Hx, a, b; reflexivity|rewrite a; apply IH, b].
+  rewrite andb_true_iff. intros [a b]. destruct (lt y x); simpl; [rewrite a; apply IH, b|rewrite Hx, a, b; reflexivity].
 Qed.
 Lemma sort_by_nu {A} (f : A -> bool) lt l : forallb f l = true -> forallb f (sort_by lt l) = true.
 Proof.
